@@ -22,24 +22,24 @@ import (
 // C09: SOCKS5 probe - reported iff the server answers 05 00; always time-bounded.
 
 type c09Chunk struct {
-	Data    []byte `json:"data"`
-	PauseQ  int    `json:"pause_before_in_eighths_of_data_timeout"` // 0, 1 or 2 (i.e. <= T/4)
+	Data   []byte `json:"data"`
+	PauseQ int    `json:"pause_before_in_eighths_of_data_timeout"` // 0, 1 or 2 (i.e. <= T/4)
 }
 
 type c09Script struct {
-	Mode        string     `json:"mode"`          // accept | refuse | backlog (listener never accepts, queue full: SYNs are dropped)
-	ReadFirst   bool       `json:"read_greeting_before_replying"`
-	Chunks      []c09Chunk `json:"reply_chunks"`
-	End         string     `json:"then"` // stall | close | rst | flood
-	CloseEarly  bool       `json:"close_right_after_accept"`
+	Mode       string     `json:"mode"` // accept | refuse | backlog (listener never accepts, queue full: SYNs are dropped)
+	ReadFirst  bool       `json:"read_greeting_before_replying"`
+	Chunks     []c09Chunk `json:"reply_chunks"`
+	End        string     `json:"then"` // stall | close | rst | flood
+	CloseEarly bool       `json:"close_right_after_accept"`
 }
 
 type c09Case struct {
-	Script    c09Script `json:"server"`
-	DialMs    int       `json:"dial_timeout_ms"`
-	DataMs    int       `json:"data_timeout_ms"`
-	CancelMs  int       `json:"cancel_after_ms"` // 0: never
-	IP        [4]byte   `json:"ip"`              // 127.x.y.z
+	Script   c09Script `json:"server"`
+	DialMs   int       `json:"dial_timeout_ms"`
+	DataMs   int       `json:"data_timeout_ms"`
+	CancelMs int       `json:"cancel_after_ms"` // 0: never
+	IP       [4]byte   `json:"ip"`              // 127.x.y.z
 }
 
 // ---- the scripted server: one listener on 0.0.0.0, the script is chosen by the address the client dialled
@@ -58,9 +58,9 @@ type c09Server struct {
 }
 
 type c09Conn struct {
-	script c09Script
-	T      time.Duration
-	seen   *c09Seen
+	script  c09Script
+	T       time.Duration
+	seen    *c09Seen
 	release chan struct{}
 }
 
